@@ -86,7 +86,7 @@ func c01(c *ctx) {
 	}
 	c.mpt(mptSpec{rule: "R1", fn: handleHigh, events: evSet{"CheckHighQC": {checkHighQC}, "Header.Check": {viewCheck}, "Less": {viewLess}},
 		extraEv: invokeEvent(map[*types.Func]string{loadCommitteeM: "LoadCommittee"}), atom: lockNil,
-		target:  func(in ssa.Instruction, st *PState, e *pathEngine) string { return lockStore(in) },
+		target: func(in ssa.Instruction, st *PState, e *pathEngine) string { return lockStore(in) },
 		reqs: func(string) []string {
 			return []string{"Header.Check.ok", "LoadCommittee.ok", "CheckHighQC.ok", "@lock==nil=T|Less#0=T"}
 		}, minTarget: 1})
@@ -148,7 +148,9 @@ func c01(c *ctx) {
 	})
 	c.mpt(mptSpec{rule: "R2", fn: startPrecommitVote, events: evSet{"CheckProposerAndProposal": {checkPP}}, extraEv: firstOf(sendEv, lockStore), atom: msgNil,
 		target: sendTarget,
-		reqs:   func(string) []string { return []string{"@proposal==nil=F", "CheckProposerAndProposal#0=F", "seen:lock="} }, minTarget: 1})
+		reqs: func(string) []string {
+			return []string{"@proposal==nil=F", "CheckProposerAndProposal#0=F", "seen:lock="}
+		}, minTarget: 1})
 	c.mpt(mptSpec{rule: "R2", fn: startCommitProcess, events: evSet{"CheckProposerAndProposal": {checkPP}}, atom: msgNil,
 		target: func(in ssa.Instruction, st *PState, e *pathEngine) string {
 			if _, ok := in.(*ssa.Go); ok {
